@@ -46,6 +46,7 @@ type tgt struct {
 	Requires  bool     `json:"requires,omitempty"`  // requires = ["l"]
 	Provides  string   `json:"provides,omitempty"`  // provides = {"l": label}
 	TestCmd   string   `json:"test_cmd,omitempty"`  // non-empty: a test target
+	Manual    bool     `json:"manual,omitempty"`    // labels = ["manual"]: excluded from the report (as plz query changes always does), but still propagates
 }
 
 func (t tgt) label() string { return "//" + t.Pkg + ":" + t.Name }
@@ -373,6 +374,7 @@ func expected(w *witness) map[string]string {
 func buildState(state *core.BuildState, r *repo) {
 	g := core.NewGraph()
 	state.Graph = g
+	state.SetIncludeAndExclude(nil, []string{"manual"}) // what `plz query changes` always sets
 	state.Hashes.Config = []byte(r.Config)
 	pkgs := map[string]*core.Package{}
 	for _, p := range r.Pkgs {
@@ -411,6 +413,9 @@ func buildState(state *core.BuildState, r *repo) {
 		if t.TestCmd != "" {
 			bt.Test = new(core.TestFields)
 			bt.Test.Command = t.TestCmd
+		}
+		if t.Manual {
+			bt.AddLabel("manual")
 		}
 		g.AddTarget(bt)
 		pkg.AddTarget(bt)
@@ -454,6 +459,11 @@ func run(st *states, w *witness) map[string]bool {
 // eval returns "" if the property holds on w, else (reason of the first missed target, detail).
 func eval(st *states, w *witness) (string, string, bool) {
 	exp := expected(w)
+	for _, t := range w.After.Targets {
+		if t.Manual {
+			delete(exp, t.label()) // excluded targets need not be reported; what depends on them must be
+		}
+	}
 	got := run(st, w)
 	var missed []string
 	for l := range exp {
@@ -1067,7 +1077,15 @@ func spaceB(quick bool, out chan<- job) {
 		}
 		graphRepos(c.n, c.dataDeps, c.twoPkgs, false, func(r repo) {
 			batch = append(batch, r)
-			if len(batch) == 256 {
+			// the same repository with one target excluded from the report (label manual)
+			if c.n <= 3 {
+				for i := range r.Targets {
+					r2 := r.clone()
+					r2.Targets[i].Manual = true
+					batch = append(batch, r2)
+				}
+			}
+			if len(batch) >= 256 {
 				flush()
 			}
 		})
